@@ -71,6 +71,8 @@ def call_builtin(it, name, pos, kw):
     I = _I()
     if name == "len":
         (x,) = pos
+        if isinstance(x, N.SymBag):
+            return x.count
         if isinstance(x, (list, tuple, dict, str, range)):
             return len(x)
         if isinstance(x, Arr):
@@ -443,7 +445,7 @@ def call_np(it, name, pos, kw):
     if name == "expand_dims":
         return N.expand_dims(ctx, pos[0], kw.get("axis", pos[1] if len(pos) > 1 else None))
     if name == "squeeze":
-        return N.squeeze(ctx, _arr(it, pos[0]))
+        return N.squeeze(ctx, _arr(it, pos[0]), kw.get("axis", pos[1] if len(pos) > 1 else None))
     if name == "transpose":
         return N.transpose(ctx, _arr(it, pos[0]), pos[1] if len(pos) > 1 else kw.get("axes"))
     if name == "array_equal":
@@ -524,7 +526,7 @@ def call_arr_method(it, a: Arr, name, pos, kw):
     if name == "transpose":
         return N.transpose(ctx, a, pos if pos else None)
     if name == "squeeze":
-        return N.squeeze(ctx, a)
+        return N.squeeze(ctx, a, kw.get("axis", pos[0] if pos else None))
     if name in ("flatten", "ravel"):
         return N.flatten(ctx, a, kw.get("order", pos[0] if pos else "C"))
     if name == "item":
